@@ -7,31 +7,31 @@ From Coq Require Import String.
 
 (* ---- constants *)
 Notation ap_const s := ltac:(let x := eval vm_compute in (ap_lit s%string) in exact x) (only parsing).
-Definition kw_query : str := ap_const "query".
-Definition kw_mutation : str := ap_const "mutation".
-Definition kw_subscription : str := ap_const "subscription".
-Definition kw_fragment : str := ap_const "fragment".
-Definition kw_on : str := ap_const "on".
-Definition kw_directive : str := ap_const "directive".
-Definition kw_repeatable : str := ap_const "repeatable".
-Definition kw_schema : str := ap_const "schema".
-Definition kw_scalar : str := ap_const "scalar".
-Definition kw_type : str := ap_const "type".
-Definition kw_interface : str := ap_const "interface".
-Definition kw_implements : str := ap_const "implements".
-Definition kw_union : str := ap_const "union".
-Definition kw_enum : str := ap_const "enum".
-Definition kw_input : str := ap_const "input".
-Definition kw_extend : str := ap_const "extend".
-Definition kw_null : str := ap_const "null".
-Definition kw_true : str := ap_const "true".
-Definition kw_false : str := ap_const "false".
+Definition apk_query : str := ap_const "query".
+Definition apk_mutation : str := ap_const "mutation".
+Definition apk_subscription : str := ap_const "subscription".
+Definition apk_fragment : str := ap_const "fragment".
+Definition apk_on : str := ap_const "on".
+Definition apk_directive : str := ap_const "directive".
+Definition apk_repeatable : str := ap_const "repeatable".
+Definition apk_schema : str := ap_const "schema".
+Definition apk_scalar : str := ap_const "scalar".
+Definition apk_type : str := ap_const "type".
+Definition apk_interface : str := ap_const "interface".
+Definition apk_implements : str := ap_const "implements".
+Definition apk_union : str := ap_const "union".
+Definition apk_enum : str := ap_const "enum".
+Definition apk_input : str := ap_const "input".
+Definition apk_extend : str := ap_const "extend".
+Definition apk_null : str := ap_const "null".
+Definition apk_true : str := ap_const "true".
+Definition apk_false : str := ap_const "false".
 Definition ap_spread : str := [c_dot; c_dot; c_dot].
 Definition ap_sp : str := [c_space].
 
 (* OperationType::name *)
 Definition ap_optype_name (o : optype) : str :=
-  match o with OpQuery => kw_query | OpMutation => kw_mutation | OpSubscription => kw_subscription end.
+  match o with OpQuery => apk_query | OpMutation => apk_mutation | OpSubscription => apk_subscription end.
 
 (* DirectiveLocation::name *)
 Definition ap_dirloc_name (l : dirloc) : str :=
@@ -107,9 +107,9 @@ Definition ap_top_level (items : list ap_m) : ap_m :=
 (* ---- values, arguments, directives *)
 Fixpoint ap_value (v : value) : ap_m :=
   match v with
-  | VNull => ap_write kw_null
-  | VBool true => ap_write kw_true
-  | VBool false => ap_write kw_false
+  | VNull => ap_write apk_null
+  | VBool true => ap_write apk_true
+  | VBool false => ap_write apk_false
   | VEnum n => ap_write n
   | VString s => aps_serialize_string_value false s
   | VVar n => ap_display ([c_dollar] ++ n)
@@ -166,7 +166,7 @@ Fixpoint ap_selection (s : selection) : ap_m :=
       ap_write ap_spread ;; ap_write name ;; ap_directives dirs
   | SInline cond dirs sels =>
       match cond with
-      | Some t => ap_write (ap_spread ++ ap_sp ++ kw_on ++ ap_sp) ;; ap_write t
+      | Some t => ap_write (ap_spread ++ ap_sp ++ apk_on ++ ap_sp) ;; ap_write t
       | None => ap_write ap_spread
       end ;;
       ap_directives dirs ;;
@@ -195,7 +195,7 @@ Definition ap_operation (op : optype) (name : option str) (vars : list vardef)
    ap_curly (map ap_selection sels)) st.
 
 Definition ap_fragment (name cond : str) (dirs : list directive) (sels : list selection) : ap_m :=
-  ap_display (kw_fragment ++ ap_sp ++ name ++ ap_sp ++ kw_on ++ ap_sp ++ cond) ;;
+  ap_display (apk_fragment ++ ap_sp ++ name ++ ap_sp ++ apk_on ++ ap_sp ++ cond) ;;
   ap_directives dirs ;;
   ap_write ap_sp ;;
   ap_curly (map ap_selection sels).
@@ -245,14 +245,14 @@ Definition ap_rootop (r : rootop) : ap_m :=
 Definition ap_directive_definition (desc : option str) (name : str) (args : list inputvaldef)
     (repeatable : bool) (locs : list dirloc) : ap_m :=
   aps_serialize_description desc ;;
-  ap_write (kw_directive ++ [c_space; c_at]) ;;
+  ap_write (apk_directive ++ [c_space; c_at]) ;;
   ap_write name ;;
   ap_arguments_definition args ;;
-  (if repeatable then ap_write (ap_sp ++ kw_repeatable) else ap_skip) ;;
+  (if repeatable then ap_write (ap_sp ++ apk_repeatable) else ap_skip) ;;
   match locs with
   | [] => ap_skip
   | first :: rest =>
-      ap_write (ap_sp ++ kw_on ++ ap_sp) ;;
+      ap_write (ap_sp ++ apk_on ++ ap_sp) ;;
       ap_write (ap_dirloc_name first) ;;
       ap_all (map (fun l => ap_write [c_space; c_pipe; c_space] ;; ap_write (ap_dirloc_name l)) rest)
   end.
@@ -260,7 +260,7 @@ Definition ap_directive_definition (desc : option str) (name : str) (args : list
 Definition ap_schema_definition (desc : option str) (dirs : list directive) (roots : list rootop)
     : ap_m :=
   aps_serialize_description desc ;;
-  ap_write kw_schema ;;
+  ap_write apk_schema ;;
   ap_directives dirs ;;
   ap_write ap_sp ;;
   ap_curly (map ap_rootop roots).
@@ -272,7 +272,7 @@ Definition ap_object_type_like (name : str) (impls : list str) (dirs : list dire
   match impls with
   | [] => ap_skip
   | first :: rest =>
-      ap_write (ap_sp ++ kw_implements ++ ap_sp) ;;
+      ap_write (ap_sp ++ apk_implements ++ ap_sp) ;;
       ap_write first ;;
       ap_all (map (fun n => ap_write [c_space; c_amp; c_space] ;; ap_write n) rest)
   end ;;
@@ -310,43 +310,43 @@ Definition ap_definition (d : definition) : ap_m :=
   | DDirective desc name args rep locs => ap_directive_definition desc name args rep locs
   | DSchema desc dirs roots => ap_schema_definition desc dirs roots
   | DScalar desc name dirs =>
-      aps_serialize_description desc ;; ap_write (kw_scalar ++ ap_sp) ;; ap_write name ;;
+      aps_serialize_description desc ;; ap_write (apk_scalar ++ ap_sp) ;; ap_write name ;;
       ap_directives dirs
   | DObject desc name impls dirs fields =>
-      aps_serialize_description desc ;; ap_write (kw_type ++ ap_sp) ;;
+      aps_serialize_description desc ;; ap_write (apk_type ++ ap_sp) ;;
       ap_object_type_like name impls dirs fields
   | DInterface desc name impls dirs fields =>
-      aps_serialize_description desc ;; ap_write (kw_interface ++ ap_sp) ;;
+      aps_serialize_description desc ;; ap_write (apk_interface ++ ap_sp) ;;
       ap_object_type_like name impls dirs fields
   | DUnion desc name dirs members =>
-      aps_serialize_description desc ;; ap_write (kw_union ++ ap_sp) ;; ap_union name dirs members
+      aps_serialize_description desc ;; ap_write (apk_union ++ ap_sp) ;; ap_union name dirs members
   | DEnum desc name dirs values =>
-      aps_serialize_description desc ;; ap_write (kw_enum ++ ap_sp) ;;
+      aps_serialize_description desc ;; ap_write (apk_enum ++ ap_sp) ;;
       ap_name_dirs_body name dirs (map ap_enumvaldef values)
   | DInput desc name dirs fields =>
-      aps_serialize_description desc ;; ap_write (kw_input ++ ap_sp) ;;
+      aps_serialize_description desc ;; ap_write (apk_input ++ ap_sp) ;;
       ap_name_dirs_body name dirs (map ap_inputvaldef fields)
   | XSchema dirs roots =>
-      ap_write (kw_extend ++ ap_sp ++ kw_schema) ;;
+      ap_write (apk_extend ++ ap_sp ++ apk_schema) ;;
       ap_directives dirs ;;
       match roots with
       | [] => ap_skip
       | _ => ap_write ap_sp ;; ap_curly (map ap_rootop roots)
       end
   | XScalar name dirs =>
-      ap_write (kw_extend ++ ap_sp ++ kw_scalar ++ ap_sp) ;; ap_write name ;; ap_directives dirs
+      ap_write (apk_extend ++ ap_sp ++ apk_scalar ++ ap_sp) ;; ap_write name ;; ap_directives dirs
   | XObject name impls dirs fields =>
-      ap_write (kw_extend ++ ap_sp ++ kw_type ++ ap_sp) ;; ap_object_type_like name impls dirs fields
+      ap_write (apk_extend ++ ap_sp ++ apk_type ++ ap_sp) ;; ap_object_type_like name impls dirs fields
   | XInterface name impls dirs fields =>
-      ap_write (kw_extend ++ ap_sp ++ kw_interface ++ ap_sp) ;;
+      ap_write (apk_extend ++ ap_sp ++ apk_interface ++ ap_sp) ;;
       ap_object_type_like name impls dirs fields
   | XUnion name dirs members =>
-      ap_write (kw_extend ++ ap_sp ++ kw_union ++ ap_sp) ;; ap_union name dirs members
+      ap_write (apk_extend ++ ap_sp ++ apk_union ++ ap_sp) ;; ap_union name dirs members
   | XEnum name dirs values =>
-      ap_write (kw_extend ++ ap_sp ++ kw_enum ++ ap_sp) ;;
+      ap_write (apk_extend ++ ap_sp ++ apk_enum ++ ap_sp) ;;
       ap_name_dirs_body name dirs (map ap_enumvaldef values)
   | XInput name dirs fields =>
-      ap_write (kw_extend ++ ap_sp ++ kw_input ++ ap_sp) ;;
+      ap_write (apk_extend ++ ap_sp ++ apk_input ++ ap_sp) ;;
       ap_name_dirs_body name dirs (map ap_inputvaldef fields)
   end.
 
